@@ -512,6 +512,26 @@ def f_wide(p):
     return m
 
 
+def f_aggr_neg(p):
+    """outermost index-range aggregates whose condition probes another (brie / btree) relation: membership tests inside the
+    parallel aggregate loop"""
+    r = p.r
+    b = p.fresh("bn")
+    p.decl(b, [("a", "number"), ("b", "number")], r.choice(["brie", "brie", "btree"]))
+    p.rule("%s(a,b) :- e2(_,a,b), a < b + 2." % b)
+    p.rule("%s(a,b) :- e1(a,b), a %% 3 = 0." % b)
+    n = p.fresh("an")
+    p.decl(n, [("k", "number"), ("c", "number"), ("s", "number")])
+    dom = p.meta["domain"]
+    for kk in r.sample(range(0, min(dom, 12)), 3):
+        p.rule("%s(%d,c,s) :- c = count : { e2(%d,a,b), !%s(a,b) }, s = sum a+b : { e2(%d,a,b), %s(a,b) }." % (n, kk, kk, b, kk, b))
+    m = p.fresh("am")
+    p.decl(m, [("k", "number"), ("lo", "number")])
+    kk = r.randrange(0, min(dom, 12))
+    p.rule("%s(%d,lo) :- lo = min y : { e1(%d,y), !%s(%d,y) }." % (m, kk, kk, b, kk))
+    return n
+
+
 def f_io_relation(p):
     """a relation that is both .input and .output (no rules of its own) and feeds a derived relation"""
     r = p.r
@@ -551,7 +571,7 @@ def f_typed_input(p):
 
 
 FRAGMENTS = [f_exists, f_exists_idx, f_facts, f_index_brie, f_outer_aggr2, f_filter, f_join, f_join3, f_tc, f_mutual, f_negation, f_aggr, f_outer_aggr, f_strings, f_records, f_adt, f_eqrel, f_multi,
-             f_arith, f_indexed, f_eqrel_input, f_typed_input, f_io_relation, f_itercnt, f_two_inputs, f_nullary_rec, f_multi_index, f_wide]
+             f_arith, f_indexed, f_eqrel_input, f_typed_input, f_io_relation, f_itercnt, f_two_inputs, f_nullary_rec, f_multi_index, f_wide, f_aggr_neg]
 
 
 def f_input_derived(p):
@@ -588,7 +608,7 @@ def gen_c20(seed, size="quick"):
 
 def gen_c03c(seed, size="quick"):
     """workloads for the synthesised-program runs: always contain index scans that insert into brie/btree relations"""
-    return gen_c03(seed, size, always=(f_index_brie, f_indexed))
+    return gen_c03(seed, size, always=(f_index_brie, f_indexed, f_aggr_neg))
 
 
 def gen_c03(seed, size="quick", exclude=(), always=()):
